@@ -252,12 +252,6 @@ theorem sound_frozen (D : Doc) {s s' : RState} (h : Frozen s s') (hs : Sound D s
   rw [ha] at he
   exact hs b i hi hb e he
 
-theorem urisOk_frozen (D : Doc) {s s' : RState} (h : Frozen s s') (hs : UrisOk D s) : UrisOk D s' := by
-  intro d' hd' e he
-  obtain ⟨d, hd, hu, _⟩ := h.doc_rev D.root d' hd'
-  rw [hu] at he
-  exact hs d hd e he
-
 theorem uriDone_frozen (D : Doc) (ret : Url) {s s' : RState} (h : Frozen s s') (r : NodeId)
     (hd : UriDone D ret s.infos r) : UriDone D ret s'.infos r := by
   obtain ⟨i, l, hi, hl, hu⟩ := hd
